@@ -428,7 +428,7 @@ func c19Readers(c *fw.Case) {
 	}
 	steps := 15 + r.Intn(20)
 	for s := 0; s < steps; s++ {
-		op := r.Intn(11)
+		op := r.Intn(12)
 		if op == 8 && len(legacy) == 0 {
 			op = 0
 		}
@@ -581,6 +581,42 @@ func c19Readers(c *fw.Case) {
 			runtime.KeepAlive(super)
 			if !ok {
 				return
+			}
+		case 11: // a table whose INDEX is unreadable (a flipped marker byte or a cut inside a record): creating the reader
+			// fails — there is no reader the caller could close, so nothing may stay open
+			bdir := filepath.Join(dir, "badindex")
+			_ = os.RemoveAll(bdir)
+			if copyDir(tdir, bdir) == nil {
+				ip := filepath.Join(bdir, sstables.IndexFileName)
+				if img, err := os.ReadFile(ip); err == nil && len(img) > 20 {
+					if r.Intn(2) == 0 {
+						img = img[:8+r.Intn(len(img)-8)]
+					} else {
+						img[8+r.Intn(3)] ^= 0x55
+					}
+					_ = os.WriteFile(ip, img, 0644)
+					lname := []string{"default", "slice", "skiplist", "disk"}[r.Intn(4)]
+					opts := []sstables.ReadOption{sstables.ReadBasePath(bdir), sstables.ReadWithKeyComparator(skiplist.BytesComparator{})}
+					switch lname {
+					case "slice":
+						opts = append(opts, sstables.ReadIndexLoader(&sstables.SliceKeyIndexLoader{ReadBufferSize: 4096}))
+					case "skiplist":
+						opts = append(opts, sstables.ReadIndexLoader(&sstables.SkipListIndexLoader{KeyComparator: skiplist.BytesComparator{}, ReadBufferSize: 4096}))
+					case "disk":
+						opts = append(opts, sstables.ReadIndexLoader(&sstables.DiskIndexLoader{}))
+					}
+					rd, err := sstables.NewSSTableReader(opts...)
+					if err == nil {
+						_ = rd.Close()
+					} else {
+						c.Obs("table_readers_that_failed_to_load_a_damaged_index", 1)
+					}
+					ok := check("table-reader-with-unreadable-index/" + lname)
+					runtime.KeepAlive(rd)
+					if !ok {
+						return
+					}
+				}
 			}
 		case 10: // the protobuf record writer (Path option; plain, compressed, and direct I/O on a real file system)
 			pdir := dir
